@@ -6,6 +6,7 @@
 cd /verif
 glob=${1:-r*}; par=${2:-2}
 out=${SWEEP_OUT:-refactors/SWEEP.txt}
+case "$out" in /*) ;; *) out=/verif/$out;; esac   # the workers run elsewhere: absolute path
 : > $out
 export GOFLAGS=-mod=mod GOPROXY=off GOSUMDB=off GOTOOLCHAIN=local
 ls -d refactors/$glob/ | xargs -P $par -L 1 bash -c '
@@ -22,7 +23,7 @@ ls -d refactors/$glob/ | xargs -P $par -L 1 bash -c '
   cd $vc; export VERIF_REPO=$wt
   for i in ${REFSWEEP_CHECKS:-01 02 03 04 05 06 07 08 09 10 11 12 13 14 15 16 17 18 19}; do
     r=$(./check C$i --tier quick 2>&1 | grep -E "^VIOLATION|broken:|disagreement:" | head -2 | cut -c1-300 | tr "\n" " ")
-    if [ -z "$r" ]; then echo "$id C$i SILENT" >> /verif/'$out'; else echo "$id C$i $r" >> /verif/'$out'; fi
+    if [ -z "$r" ]; then echo "$id C$i SILENT" >> '$out'; else echo "$id C$i $r" >> '$out'; fi
   done
   cd /; git -C /repo worktree remove --force $wt 2>/dev/null; rm -rf $root
   echo "$id done"
